@@ -233,6 +233,25 @@ fn http_once(port: u16, rq: &Rq, variant: usize) -> Result<Value, String> {
     Err(last)
 }
 
+/// Building / starting an app may panic (thread spawn failure under load, with_host("*")): that is an error of
+/// this app, not the end of the worker. One retry after a pause for resource exhaustion.
+fn start_guarded<S: Server>(calls: &[Call]) -> Result<S, String> {
+    let mut last = String::new();
+    for attempt in 0..2 {
+        match std::panic::catch_unwind(std::panic::AssertUnwindSafe(|| S::start(calls))) {
+            Ok(Ok(s)) => return Ok(s),
+            Ok(Err(e)) => return Err(e),
+            Err(p) => {
+                last = p.downcast_ref::<String>().cloned().or_else(|| p.downcast_ref::<&str>().map(|x| x.to_string())).unwrap_or_else(|| "panic".into());
+                if attempt == 0 {
+                    thread::sleep(Duration::from_millis(300));
+                }
+            }
+        }
+    }
+    Err(format!("panic while building/starting: {}", last))
+}
+
 // ------------------------------------------------------------------------------------------------
 // replay of TLC vectors: {"reqs":[..]} then {"calls":[..],"exp":[..]} per app
 // ------------------------------------------------------------------------------------------------
@@ -276,7 +295,7 @@ fn replay<S: Server>(workers: usize) {
                 Some(j) => j,
                 None => break,
             };
-            let srv = match S::start(&job.calls) {
+            let srv = match start_guarded::<S>(&job.calls) {
                 Ok(s) => s,
                 Err(e) => {
                     acc.lock().unwrap().4.push(format!("app {}: {}", job.id, e));
@@ -424,7 +443,7 @@ fn random<S: Server>(apps: usize, per_app: usize, workers: usize) {
                 Some(j) => j,
                 None => break,
             };
-            let srv = match S::start(&calls) {
+            let srv = match start_guarded::<S>(&calls) {
                 Ok(s) => s,
                 Err(e) => {
                     errs.lock().unwrap().push(format!("app {}: {}", id, e));
